@@ -451,6 +451,7 @@ import mir_jobs_worktop    # noqa: E402,F401  (registers the worktop jobs)
 import mir_jobs_pool    # noqa: E402,F401  (registers the pool contribution jobs)
 import mir_jobs_rounds    # noqa: E402,F401  (registers the round / epoch jobs)
 import mir_jobs_tracker    # noqa: E402,F401  (registers the transaction tracker commit job)
+import mir_jobs_dbkey    # noqa: E402,F401  (registers the sorted database key jobs)
 
 
 def _index():
